@@ -414,13 +414,13 @@ class StmtMixin:
             raise PyExc("TypeError", "'NoneType' object is not callable")
         raise Unsupported(f"call of {type(fn).__name__}")
 
-    def instantiate(self, cls, args, kwargs):
+    def instantiate(self, cls, args, kwargs, use_summary=True):
         if cls.is_enum(self.repo):
             return self.enum_from_value(cls, args[0])
         if cls.is_exception(self.repo):
             return PyExc(cls.name)
         key = cls.qualname + ".__init__"
-        if key in self.summaries:
+        if key in self.summaries and use_summary:
             return self.summaries[key](self, cls, args, kwargs)
         hook = self.summaries.get(cls.qualname + ".__new__")
         if hook is not None:
@@ -458,7 +458,7 @@ class StmtMixin:
         qual = fi.qualname if fi.outer is None else fi.outer.qualname + ".<locals>." + fi.name
         if fv.self_val is not None:
             args = [fv.self_val] + list(args)
-        if qual in self.summaries and (qual not in self.recursive_only
+        if qual in self.summaries and fi.name not in ("__init__", "__new__") and (qual not in self.recursive_only
                                        or (qual in self.call_stack and not self.concrete_mode)):
             self.current_callee = fv
             return self.summaries[qual](self, args, kwargs)
